@@ -318,7 +318,7 @@ def gen_tt2qtt_int(rng):
 
 def run(ctx):
     quick = ctx.tier == 'quick'
-    lib.stage_proof(ctx, PROP_FILES)
+    lib.stage_proof(ctx, PROP_FILES, ['Check/C02.vo'])
     n_corr = 60 if quick else 600
     cases, metas = [], []
     for fn in OPS:
